@@ -31,17 +31,29 @@ type Prep struct {
 // set exists and is active, then walks the remaining letters. Without a canary
 // strategy every new letter becomes active at once; with one, later letters
 // stay canaries (callers then adjust status as they need).
+// prepTolerations, when > 0, gives every template that prepare() applies that many extra tolerations. Slices
+// decoded from the API (JSON) then have spare capacity for certain lengths, which is what it takes for an
+// append on a shared object to write in place.
+var prepTolerations int
+
+func withTolerations(tpl corev1.PodTemplateSpec, n int) corev1.PodTemplateSpec {
+	for i := 0; i < n; i++ {
+		tpl.Spec.Tolerations = append(tpl.Spec.Tolerations, corev1.Toleration{Key: fmt.Sprintf("example.com/taint-%02d", i), Operator: corev1.TolerationOpExists, Effect: corev1.TaintEffectNoSchedule})
+	}
+	return tpl
+}
+
 func prepare(c *sim.Cluster, ns, name string, strategy edsv1.ExtendedDaemonSetSpecStrategy, ann map[string]string, word string) *Prep {
 	p := &Prep{C: c, NS: ns, Name: name, RS: map[byte]string{}}
 	e := &edsv1.ExtendedDaemonSet{
 		ObjectMeta: metav1.ObjectMeta{Namespace: ns, Name: name, Annotations: ann},
-		Spec:       edsv1.ExtendedDaemonSetSpec{Template: gen.LetterTemplate(word[0]), Strategy: strategy},
+		Spec:       edsv1.ExtendedDaemonSetSpec{Template: withTolerations(gen.LetterTemplate(word[0]), prepTolerations), Strategy: strategy},
 	}
 	c.Add(e)
 	for i := 0; i < len(word); i++ {
 		if i > 0 {
 			l := word[i]
-			_ = c.EditEDS(ns, name, func(x *edsv1.ExtendedDaemonSet) { x.Spec.Template = gen.LetterTemplate(l) })
+			_ = c.EditEDS(ns, name, func(x *edsv1.ExtendedDaemonSet) { x.Spec.Template = withTolerations(gen.LetterTemplate(l), prepTolerations) })
 		}
 		for k := 0; k < 4; k++ {
 			c.Reconcile(sim.ActorEDS, ns, name)
@@ -71,10 +83,11 @@ const (
 	PSFailed
 	PSUnknown
 	PSTerminatingUnready // terminating inside its grace period, not Ready any more
+	PSAvailableSkew      // Ready, the Ready transition stamped two seconds ahead of the controller's clock (kubelet clock skew, second truncation)
 )
 
 func (s PodState) String() string {
-	return [...]string{"none", "available", "unavailable", "terminating", "stuck-unscheduled", "terminating-past-grace", "pending", "failed", "unknown", "terminating-unready"}[s]
+	return [...]string{"none", "available", "unavailable", "terminating", "stuck-unscheduled", "terminating-past-grace", "pending", "failed", "unknown", "terminating-unready", "available-skewed"}[s]
 }
 
 var podSeq int
@@ -90,7 +103,7 @@ func (p *Prep) addPod(node string, letter byte, st PodState, age time.Duration) 
 	if letter != 0 {
 		// the replica set of an older letter may already have been collected (all-zero status): its pods
 		// then still carry its name and hash, as pods of a deleted replica set do until the GC removes them
-		tplv := gen.LetterTemplate(letter)
+		tplv := withTolerations(gen.LetterTemplate(letter), prepTolerations)
 		tpl := &tplv
 		hash := oracle.TemplateHash(tpl)
 		uid := types.UID("gone-uid-" + string(letter))
@@ -148,6 +161,13 @@ func (p *Prep) addPod(node string, letter byte, st PodState, age time.Duration) 
 	switch st {
 	case PSAvailable:
 		ready(true)
+	case PSAvailableSkew:
+		ready(true)
+		for i := range pod.Status.Conditions {
+			if pod.Status.Conditions[i].Type == corev1.PodReady {
+				pod.Status.Conditions[i].LastTransitionTime = metav1.NewTime(now.Add(2 * time.Second).Truncate(time.Second))
+			}
+		}
 	case PSUnavailable:
 		ready(false)
 	case PSTerminating:
